@@ -339,6 +339,24 @@ fn c04_create_noprealloc(dir: &str) -> bool {
     true
 }
 
+/// C12: a rollback request that cannot be served (more commits than are logged) is refused and leaves
+/// the rollback history as it was: a following serviceable rollback works and restores the right state.
+fn c12_rejected_rollback(dir: &str) -> bool {
+    let _ = std::fs::remove_dir_all(dir);
+    let db: Db = Nomt::open(opts(dir, true)).unwrap();
+    commit(&db, vec![(key(1), Some(vec![1]))]);
+    let root_a = db.root();
+    commit(&db, vec![(key(1), Some(vec![2])), (key(2), Some(vec![20]))]);
+    let root_b = db.root();
+    let refused = db.rollback(3).is_err();
+    let unchanged = db.root() == root_b && db.read(key(1)).unwrap() == Some(vec![2]);
+    let r = db.rollback(1);
+    let restored = r.is_ok() && db.root() == root_a && db.read(key(1)).unwrap() == Some(vec![1]) && db.read(key(2)).unwrap() == None;
+    println!("rollback(3) refused={} state_unchanged={} then rollback(1) -> {:?}, restores the state after the first commit={}",
+        refused, unchanged, r.map_err(|e| e.to_string()), restored);
+    refused && unchanged && restored
+}
+
 /// C14 (driver): build the database that `c14_commit_for_injection` commits to.
 fn c14_prepare(dir: &str) -> bool {
     let _ = std::fs::remove_dir_all(dir);
@@ -496,6 +514,7 @@ fn main() {
         "c20_fresh_and_reopen" => c20_fresh_and_reopen(dir),
         "c20_try_open" => c20_try_open(dir),
         "c14_prepare" => c14_prepare(dir),
+        "c12_rejected_rollback" => c12_rejected_rollback(dir),
         "c03_crash_first_commit" => c03_crash_first_commit(dir),
         "c03_first_commit_crash" => c03_first_commit_crash(dir),
         "c04_create_noprealloc" => c04_create_noprealloc(dir),
